@@ -304,7 +304,9 @@ func findColumnInFieldList(selectCol sql.ColumnReference, resultCols storage.Fie
 }
 
 func aggregateRows(selectList sql.SelectList, groupBy []sql.ColumnReference, rows []*storage.Row) ([]*storage.Row, error) {
-	if !selectList.HasAggrFunc() {
+	// without GROUP BY, a select list free of aggregate functions leaves the
+	// rows as they are. with GROUP BY the rows are grouped either way.
+	if !selectList.HasAggrFunc() && len(groupBy) == 0 {
 		return rows, nil
 	}
 
